@@ -294,9 +294,69 @@ def _mentions(e: ast.AST, word: str) -> bool:
     return any((isinstance(n, ast.Attribute) and n.attr == word) or (isinstance(n, ast.Name) and n.id == word) for n in ast.walk(e))
 
 
+def member_keys(ctx: Ctx) -> set:
+    """the vocabulary of per-member keys: constant subscript-store keys in the header parser and the member walk."""
+    keys = set()
+    fns = [shared.szf(ctx, "_real_get_contents")] + [m for m in ctx.prog.cls("FilesInfo", "archiveinfo").methods.values()]
+    for f in fns:
+        for n in walk(f.node):
+            if isinstance(n, (ast.Assign, ast.AnnAssign)):
+                for t in (n.targets if isinstance(n, ast.Assign) else [n.target]):
+                    if isinstance(t, ast.Subscript) and isinstance(t.slice, ast.Constant) and isinstance(t.slice.value, str):
+                        keys.add(t.slice.value)
+            # _read_times(fp, "lastwritetime") style: the key travels as a string argument
+            if isinstance(n, ast.Call) and attr_tail(n) in ("_read_times", "_read_attributes", "_read_name", "_read_start_pos"):
+                keys |= {a.value for a in n.args if isinstance(a, ast.Constant) and isinstance(a.value, str)}
+    return keys
+
+
+def r12_5(ctx: Ctx, closure: Dict[str, Func]) -> None:
+    """reading does not deplete the member table: ArchiveFile.file_properties() hands out the member's own dict, so a read-mode
+    function that pops / deletes a member key from a dict it did not create itself changes what list()/getinfo()/a second extraction
+    see later in the session."""
+    keys = member_keys(ctx)
+    ctx.need(len(keys) >= 8 and "lastwritetime" in keys, f"member key vocabulary not derived ({sorted(keys)})")
+    roots = shared.read_roots(ctx)
+    n_fn = 0
+    for fq, f in sorted(closure.items()):
+        if f.module != "py7zr":
+            continue
+        n_fn += 1
+
+        def fresh(e: ast.AST) -> bool:
+            if isinstance(e, ast.Name):
+                vals = q.assigned_values(f, e.id)
+                return bool(vals) and all(isinstance(v, (ast.Dict, ast.DictComp)) or (isinstance(v, ast.Call) and (dotted(v.func) == "dict" or attr_tail(v) in ("copy", "deepcopy")))
+                                          for v in vals)
+            return False
+
+        for n in walk(f.node):
+            recv, key = None, None
+            if isinstance(n, ast.Call) and isinstance(n.func, ast.Attribute) and n.func.attr in ("pop", "__delitem__") and n.args \
+                    and isinstance(n.args[0], ast.Constant) and isinstance(n.args[0].value, str):
+                recv, key = n.func.value, n.args[0].value
+            elif isinstance(n, ast.Call) and isinstance(n.func, ast.Attribute) and n.func.attr in ("clear", "popitem") and not n.args \
+                    and any(w in norm(n.func.value) for w in ("properties", "file_info", "_file_info")):
+                recv, key = n.func.value, "*"
+            elif isinstance(n, ast.Delete):
+                for t in n.targets:
+                    if isinstance(t, ast.Subscript) and isinstance(t.slice, ast.Constant) and isinstance(t.slice.value, str):
+                        recv, key = t.value, t.slice.value
+            if recv is None or (key != "*" and key not in keys) or fresh(recv):
+                continue
+            ctx.fail("R12.5", f, n, f"`{norm(n)[:70]}` removes the member key '{key}' from a dict this function did not create (file_properties() returns the member's "
+                     "own dict): after the first extraction list()/getinfo() lose the value and a second extraction no longer restores it",
+                     construct=f"member key removed {key}", path=ctx.res.call_path(roots, fq))
+    ctx.floor("R12.5", n_fn, 20, "py7zr functions in the read closure")
+    ctx.ok("R12.5", f"{n_fn} read-closure functions: no member key ({len(keys)} keys) is popped/deleted from a shared dict")
+
+
 def run(ctx: Ctx) -> None:
+    from . import c06 as _c06x
+    _c06x.dispatch_forwards_skip(ctx, "R12.4")
     closure = shared.read_closure(ctx)
     ctx.extra["closure_size"] = len(closure)
     r12_1(ctx, closure)
     r12_2(ctx, closure)
     r12_3(ctx)
+    r12_5(ctx, closure)
